@@ -1,4 +1,4 @@
-module spike15
+module spike16
 
 go 1.23
 
